@@ -12,6 +12,7 @@ search: twin learners A, B driven through the same history; A additionally recei
 from __future__ import annotations
 
 import json
+import copy
 import random
 
 from harness import core, learners as L, xlearner as X
@@ -63,6 +64,7 @@ def case(arg):
     failed_asks = [0]
     l2d_stack = [0]
     l2d_order = [0]
+    nosync = [False]
     commit_equiv = [0]
     hidden = {"lnd_rng": 0, "cycle": 0}
 
@@ -76,13 +78,30 @@ def case(arg):
         try:
             if rng.random() < 0.35:
                 n = rng.choice([1, 1, 2, 3, 5])
+                if kn.split(":")[-1] == "l2d" and rng.random() < 0.15:
+                    n = rng.choice([10, 11, 13, 24])  # more than Learner2D's suggestion stack holds (stack_size = 10)
                 if kn.split(":")[-1] == "seq" and rng.random() < 0.15:
                     n = rng.choice([8, 12, 30])  # more than a finite learner may have left: the request may fail
                 if True:
                     before = obs(kn, a)
                     stack0 = _stacks(kn, a) if kn.split(":")[-1] == "l2d" else None
+                    ref = None
+                    if kn == "l2d" and not nosync[0]:
+                        # reference for the recorded stack mechanism: a deep copy.  The iteration order of the pending hash set
+                        # decides SciPy's triangulation of co-circular points (recorded finding l2d_pending_set_order), so all
+                        # three learners get a pending set built by the same insertion sequence first
+                        ref = copy.deepcopy(a)
+                        order = sorted(a.pending_points)
+                        for x in (a, b, ref):
+                            x.pending_points = set(order)
+                            x._ip_combined = None
                     try:
                         r1 = a.ask(n, tell_pending=False)
+                        if ref is not None and not _l2d_stack_as_committed(a, ref, n, r1):
+                            # NOT the recorded mechanism: the stack the call left behind is not what a committing ask of the
+                            # same size would have produced.  From here on the twin's stack is left alone, so every later
+                            # answer that differs is reported
+                            nosync[0] = True
                     except Exception as e1:  # noqa: BLE001
                         # a request that cannot be served (finite sequence exhausted, converged integrator): it must fail
                         # cleanly - "no observable effect" holds for every request size
@@ -105,10 +124,11 @@ def case(arg):
                     if r1 is None:
                         pass
                     else:
+                      stack1 = _stacks(kn, a) if stack0 is not None else None
                       r2 = a.ask(n, tell_pending=False)
                       extra += 1
                       if L.canon(r1) != L.canon(r2):
-                          if kn.split(":")[-1] == "l2d" and stack0 is not None and stack0 != _stacks(kn, a):
+                          if kn.split(":")[-1] == "l2d" and stack0 is not None and (stack0 != stack1 or n > 10) and not nosync[0]:
                               # the first call rewrote the suggestion stack, the second one served from it (known mechanism)
                               l2d_stack[0] += 1
                               r1 = r2
@@ -128,7 +148,7 @@ def case(arg):
                               return fail("state_changed", f"ask({n}, False) changed {d}", i, op)
                           # Learner2D: the rewritten stack is cut to stack_size entries; never evaluated corner points
                           # re-queued behind it are dropped and bounds_are_done / loss() change (same known mechanism)
-                      if kn.split(":")[-1] == "l2d" and X.sync_l2d_stacks(kn, a, b):
+                      if kn.split(":")[-1] == "l2d" and not nosync[0] and X.sync_l2d_stacks(kn, a, b):
                           # known mechanism (finding l2d_stack_cache): the non-committing ask rewrote Learner2D's private
                           # suggestion stack.  Counted; the twin gets the same stack so that any OTHER effect stays visible.
                           l2d_stack[0] += 1
@@ -172,7 +192,12 @@ def case(arg):
                           # committing the same request: same points and improvements on both twins
                           ra, rb = r.ask(n, True)
                           if L.canon(ra) != L.canon(r1):
-                              return fail("commit_differs", f"ask({n}, True) returned {ra[0]} but ask({n}, False) had returned {r1[0]}", i, op)
+                              if kn.split(":")[-1] == "l2d" and n > 10 and stack0 != stack1 and not nosync[0]:
+                                  # a request larger than Learner2D's stack: the rewritten stack serves the first stack_size
+                                  # points, the rest is recomputed in one go with those pending (recorded stack mechanism)
+                                  l2d_stack[0] += 1
+                              else:
+                                  return fail("commit_differs", f"ask({n}, True) returned {ra[0]} but ask({n}, False) had returned {r1[0]}", i, op)
                           if L.canon(ra) != L.canon(rb):
                               return fail("twin_answers", f"ask({n}, True): {ra[0]} vs twin {rb[0]}", i, op)
             if act[0] == "ask":
@@ -221,6 +246,26 @@ def _all_learners(l):
     for c in l.__dict__.get("learners") or ():
         out += _all_learners(c)
     return out
+
+
+def _l2d_stack_as_committed(a, ref, n, r1):
+    """the recorded mechanism, exactly: after ask(n, tell_pending=False) Learner2D's private suggestion stack holds the first
+    stack_size entries of (the points a committing ask(n) returns, then the suggestions that ask leaves on the stack) - i.e.
+    the candidates are the same as after committing, only not consumed.  `ref` is a deep copy taken before the call."""
+    try:
+        rc = ref.ask(n, tell_pending=True)
+    except Exception:  # noqa: BLE001
+        return True
+    want = (list(zip([tuple(p) for p in rc[0]], rc[1])) + list(ref._stack.items()))
+    seen, uniq = set(), []
+    for p, v in want:
+        if p not in seen:
+            seen.add(p)
+            uniq.append((p, float(v)))
+    got = [(tuple(p), float(v)) for p, v in a._stack.items()]
+    if any(v != v for _, v in got + uniq) or any(float(v) != float(v) for v in list(r1[1])):
+        return True  # nan losses (degenerate triangles): argmax over nan is not a function of the state worth modelling
+    return got == uniq[: a.stack_size] and L.canon(rc) == L.canon(r1)
 
 
 def _stacks(kn, l):
